@@ -379,7 +379,19 @@ def r11_1_calltime_writes(ctx, rid='R11.1', modules=None, floor=5):
             if root.startswith(('global:', 'class:')):
                 bad = 'module/class level state %s' % root
             elif root.startswith('closure:'):
-                bad = 'a closure variable of the factory (%s)' % root
+                # a local of the enclosing function.  It outlives a call only if the nested function does: when the enclosing function
+                # merely *calls* its helper (the name appears nowhere but as the callee, recursion included) the variable is as
+                # per-call as any other local of the enclosing call
+                par = ev.fi.parent
+                escapes = True
+                if par is not None and ev.fi.cls is None:
+                    nm = ev.fi.node.name
+                    callees = {id(c.func) for c in walk_function(par.node, nested=True) if isinstance(c, ast.Call)} if False else None
+                    refs = [n for n in ast.walk(par.node) if isinstance(n, ast.Name) and n.id == nm and isinstance(n.ctx, ast.Load)]
+                    called = {id(c.func) for c in ast.walk(par.node) if isinstance(c, ast.Call) and isinstance(c.func, ast.Name)}
+                    escapes = not refs or any(id(n) not in called for n in refs)
+                if escapes:
+                    bad = 'a closure variable of the factory (%s)' % root
             elif root.startswith('self') and cls in LONG_LIVED and ev.fi.name != '__init__':
                 bad = 'field %s of a %s, which is created once per load/dump function and shared by all its calls' % (root, cls)
         if bad and k in EXEMPT_CALLTIME_WRITES:
@@ -419,6 +431,34 @@ def r11_1_calltime_writes(ctx, rid='R11.1', modules=None, floor=5):
                            'instance, across calls, functions and threads' % (c.qual, name, norm(v), norm(n)[:50]))
                 else:
                     r.ok('%s.%s: mutable class attribute, %s' % (c.qual, name, 'never mutated in place' if not mutated else 'shadowed per instance in __init__'))
+    # the function objects themselves (LoadFunction, DumpsJsonFunction, ..): one object per load/dump function, shared by all its
+    # calls and threads.  A field that __init__ fills with a freshly built mutable object (a buffer, a set, a dict) and that __call__
+    # then uses is state between calls - whatever the cleanup looks like on the normal path, an exception or a second thread finds it
+    # half-used.  Fields that hold the generated loader/dumper class (a name, not a construction) are what these objects are for.
+    for m in P.yatiml_modules():
+        if not keep(m.name):
+            continue
+        for c in m.classes.values():
+            call_m, init_m = c.methods.get('__call__'), c.methods.get('__init__')
+            if call_m is None or init_m is None or not c.name.endswith('Function'):
+                continue
+            built = {}
+            for n in walk_function(init_m.node):
+                if isinstance(n, ast.Assign) and len(n.targets) == 1 and isinstance(n.targets[0], ast.Attribute) \
+                        and norm(n.targets[0].value) == init_m.params[0] and isinstance(
+                            n.value, (ast.Call, ast.List, ast.Dict, ast.Set, ast.ListComp, ast.DictComp, ast.SetComp)):
+                    built[n.targets[0].attr] = n
+            used = {}
+            for n in walk_function(call_m.node):
+                if isinstance(n, ast.Attribute) and norm(n.value) == call_m.params[0] and n.attr in built:
+                    used.setdefault(n.attr, n)
+            for fld, n in sorted(used.items()):
+                r.fail('%s:function-object-state:%s' % (c.key, fld), call_m.loc(n),
+                       '%s.__init__ builds %s once (%s) and __call__ uses it on every call: the object is shared by all calls and threads '
+                       'of this load/dump function - after a call that fails half-way (or during a concurrent one) the next call finds '
+                       'what the last one left in it' % (c.qual, 'self.' + fld, norm(built[fld].value)[:40]))
+            if not used:
+                r.ok('%s: __call__ uses no object that __init__ built (only the generated class)' % c.qual)
     # fields mutated in place must be initialised per instance
     for ckey in ('yatiml.dumper:Dumper', 'yatiml.loader:Loader'):
         c = P.cls(ckey)
